@@ -493,38 +493,31 @@ Proof.
   eapply Forall_impl; [|exact H]. apply entry_ok_weak.
 Qed.
 
-Section Whole.
-  Variables (is : list item) (xml : list N).
-  Let p := crash_prog is xml.
+Section Generic.
+  Variables (A : Type) (p : wprog A) (xml : list N) (Done : Prop).
+  Hypothesis Hshape : Forall entry_ok (trace_of p) \/ (Done /\ gshape p xml).
   Let tr := trace_of p.
   Let F := final_image p.
 
   (** images from before the final write of page 0 (the header patch): rejected, or an empty XML *)
-  Theorem before_final_write n cut : (n + 2 < length tr)%nat -> rejected_or_empty (crash_image tr n cut).
+  Theorem g_before_final_write n cut : (n + 2 < length tr)%nat -> rejected_or_empty (crash_image tr n cut).
   Proof.
     intros Hn.
-    destruct (crash_trace_shape is xml) as [[_ Hall]|[_ (pre & P0 & data4 & x & Hsh)]]; [apply weak_rejected, Hall|].
+    destruct Hshape as [Hall|[_ (pre & P0 & data4 & x & Hsh)]]; [apply weak_rejected, Hall|].
     cbv zeta in Hsh. destruct Hsh as (Htr & Hpre & _).
-    fold p tr in Htr. rewrite Htr in Hn |- *. rewrite app_length in Hn. cbn [length] in Hn.
+    fold tr in Htr. rewrite Htr in Hn |- *. rewrite app_length in Hn. cbn [length] in Hn.
     rewrite crash_image_app_lt by lia. apply weak_rejected, Hpre.
-  Qed.
-
-  (** if the program did not complete, every image is rejected or has an empty XML *)
-  Theorem failed_run_rejected n cut : snd (wrun p pw_fresh) <> Ok tt -> rejected_or_empty (crash_image tr n cut).
-  Proof.
-    intros Hf. destruct (crash_trace_shape is xml) as [[_ Hall]|[Hok _]]; [apply weak_rejected, Hall|].
-    contradiction.
   Qed.
 
   (** the packaged statement: for EVERY crash image, [reader_open] fails, or returns a prefix of the
       XML; and when it returns the whole XML the image is the completed file *)
-  Theorem accepted_is_complete : xml <> [] -> len F < 2 ^ 64 -> forall n cut,
+  Theorem g_accepted_is_complete : xml <> [] -> len F < 2 ^ 64 -> forall n cut,
     match open_result (crash_image tr n cut) with
     | Panic => False
     | Err _ => True
     | Ok (_, _, xr) =>
         (exists k, k <= len xml /\ xr = take k xml /\ (k = len xml \/ k = 0 \/ k + 256 <= len xml)) /\
-        (xr = xml -> crash_image tr n cut = F /\ snd (wrun p pw_fresh) = Ok tt)
+        (xr = xml -> crash_image tr n cut = F /\ Done)
     end.
   Proof.
     intros Hne Hsize n cut.
@@ -532,16 +525,16 @@ Section Whole.
       match open_result img with
       | Panic => False | Err _ => True
       | Ok (_, _, xr) => (exists k, k <= len xml /\ xr = take k xml /\ (k = len xml \/ k = 0 \/ k + 256 <= len xml)) /\
-                         (xr = xml -> img = F /\ snd (wrun p pw_fresh) = Ok tt)
+                         (xr = xml -> img = F /\ Done)
       end).
     { intros img H. unfold rejected_or_empty in H. remember (open_result img) as r eqn:Er. clear Er.
       destruct r as [[[s h] xr]|e|]; [|exact I|exact H].
       subst xr. split; [exists 0; split; [lia|split; [reflexivity|auto]]|]. intros E. symmetry in E. contradiction. }
-    destruct (crash_trace_shape is xml) as [[_ Hall]|[Hok (pre & P0 & data4 & x & Hsh)]];
+    destruct Hshape as [Hall|[Hok (pre & P0 & data4 & x & Hsh)]];
       [apply Hweak, weak_rejected, Hall|].
     cbv zeta in Hsh.
     destruct Hsh as (Htr & Hpre & HI & HF & HlP & HnP & HcP & Hx & Hsl & Hxe & Hh0 & Hl4 & Hz4).
-    fold p tr in Htr. fold p F in HF.
+    fold tr in Htr. fold F in HF.
     assert (HlI : len (paginate data4) = pages_for (len data4) * 1024) by apply len_paginate.
     assert (Hpg : 1 <= pages_for (len data4)) by (unfold pages_for, PAYLOAD_SZ; lia).
     (* the completed file is the replay of the whole trace *)
@@ -558,7 +551,7 @@ Section Whole.
     assert (HatF : match open_result F with
                    | Panic => False | Err _ => True
                    | Ok (_, _, xr) => (exists k, k <= len xml /\ xr = take k xml /\ (k = len xml \/ k = 0 \/ k + 256 <= len xml)) /\
-                                      (xr = xml -> F = F /\ snd (wrun p pw_fresh) = Ok tt)
+                                      (xr = xml -> F = F /\ Done)
                    end).
     { specialize (HT 1024). unfold torn_image in HT. rewrite take_all in HT by lia. rewrite <- HFr in HT.
       remember (open_result F) as r eqn:Er. clear Er.
@@ -593,24 +586,23 @@ Section Whole.
 
 
   (** the final write of page 0 (write number [length tr - 2]) torn at any byte *)
-  Corollary torn_final_write : xml <> [] -> len F < 2 ^ 64 -> forall cut,
+  Corollary g_torn_final_write : xml <> [] -> len F < 2 ^ 64 -> forall cut,
     match open_result (crash_image tr (length tr - 2) cut) with
     | Panic => False
     | Err _ => True
     | Ok (_, _, xr) =>
         (exists k, k <= len xml /\ xr = take k xml /\ (k = len xml \/ k = 0 \/ k + 256 <= len xml)) /\
-        (xr = xml -> crash_image tr (length tr - 2) cut = F /\ snd (wrun p pw_fresh) = Ok tt)
+        (xr = xml -> crash_image tr (length tr - 2) cut = F /\ Done)
     end.
-  Proof. intros Hne Hsize cut. apply accepted_is_complete; assumption. Qed.
+  Proof. intros Hne Hsize cut. apply g_accepted_is_complete; assumption. Qed.
 
   (** all writes after the header patch (the rewrite in Drop) rewrite what is there *)
-  Theorem after_final_write n cut :
-    snd (wrun p pw_fresh) = Ok tt -> (length tr <= n + 1)%nat -> crash_image tr n cut = F.
+  Theorem g_after_final_write n cut :
+    gshape p xml -> (length tr <= n + 1)%nat -> crash_image tr n cut = F.
   Proof.
-    intros Hok Hn.
-    destruct (crash_trace_shape is xml) as [[Hf _]|[_ (pre & P0 & data4 & x & Hsh)]]; [contradiction|].
+    intros (pre & P0 & data4 & x & Hsh) Hn.
     cbv zeta in Hsh. destruct Hsh as (Htr & Hpre & HI & HF & HlP & _ & _ & _ & _ & _ & _ & Hl4 & _).
-    fold p tr in Htr.
+    fold tr in Htr.
     assert (HlI : len (paginate data4) = pages_for (len data4) * 1024) by apply len_paginate.
     assert (Hpg : 1 <= pages_for (len data4)) by (unfold pages_for, PAYLOAD_SZ; lia).
     assert (HFr : F = overwrite (paginate data4) 0 P0).
@@ -626,6 +618,56 @@ Section Whole.
       apply overwrite_prefix_idem. lia.
     - rewrite crash_image_all by (rewrite app_length; cbn [length]; lia).
       rewrite <- Htr. unfold tr. rewrite <- final_image_replay. reflexivity.
+  Qed.
+End Generic.
+
+Section Whole.
+  Variables (is : list item) (xml : list N).
+  Let p := crash_prog is xml.
+  Let tr := trace_of p.
+  Let F := final_image p.
+
+  Let Hsh : Forall entry_ok (trace_of p) \/ (snd (wrun p pw_fresh) = Ok tt /\ gshape p xml).
+  Proof. destruct (crash_trace_shape is xml) as [[_ H]|H]; [left; exact H|right; exact H]. Qed.
+
+  (** images from before the final write of page 0 (the header patch): rejected, or an empty XML *)
+  Theorem before_final_write n cut : (n + 2 < length tr)%nat -> rejected_or_empty (crash_image tr n cut).
+  Proof. exact (g_before_final_write _ p xml _ Hsh n cut). Qed.
+
+  (** if the program did not complete, every image is rejected or has an empty XML *)
+  Theorem failed_run_rejected n cut : snd (wrun p pw_fresh) <> Ok tt -> rejected_or_empty (crash_image tr n cut).
+  Proof.
+    intros Hf. destruct (crash_trace_shape is xml) as [[_ Hall]|[Hok _]]; [apply weak_rejected, Hall|].
+    contradiction.
+  Qed.
+
+  (** the packaged statement: for EVERY crash image, [reader_open] fails, or returns a prefix of the
+      XML; and when it returns the whole XML the image is the completed file *)
+  Theorem accepted_is_complete : xml <> [] -> len F < 2 ^ 64 -> forall n cut,
+    match open_result (crash_image tr n cut) with
+    | Panic => False
+    | Err _ => True
+    | Ok (_, _, xr) =>
+        (exists k, k <= len xml /\ xr = take k xml /\ (k = len xml \/ k = 0 \/ k + 256 <= len xml)) /\
+        (xr = xml -> crash_image tr n cut = F /\ snd (wrun p pw_fresh) = Ok tt)
+    end.
+  Proof. exact (g_accepted_is_complete _ p xml _ Hsh). Qed.
+
+  Corollary torn_final_write : xml <> [] -> len F < 2 ^ 64 -> forall cut,
+    match open_result (crash_image tr (length tr - 2) cut) with
+    | Panic => False
+    | Err _ => True
+    | Ok (_, _, xr) =>
+        (exists k, k <= len xml /\ xr = take k xml /\ (k = len xml \/ k = 0 \/ k + 256 <= len xml)) /\
+        (xr = xml -> crash_image tr (length tr - 2) cut = F /\ snd (wrun p pw_fresh) = Ok tt)
+    end.
+  Proof. exact (g_torn_final_write _ p xml _ Hsh). Qed.
+
+  Theorem after_final_write n cut :
+    snd (wrun p pw_fresh) = Ok tt -> (length tr <= n + 1)%nat -> crash_image tr n cut = F.
+  Proof.
+    intros Hok. destruct (crash_trace_shape is xml) as [[Hf _]|[_ Hg]]; [contradiction|].
+    exact (g_after_final_write _ p xml n cut Hg).
   Qed.
 End Whole.
 
